@@ -274,7 +274,7 @@ func c12Nondeterminism(c *Ctx, root *ssa.Function) (bad, reviewed []string) {
 				id = f.Object().Pkg().Path() + "." + f.Name()
 			}
 			switch {
-			case id == "time.Now", strings.HasPrefix(id, "math/rand."), strings.HasPrefix(id, "github.com/google/uuid."), id == "lukechampine.com/frand.New":
+			case id == "time.Now", strings.HasPrefix(id, "math/rand."), strings.HasPrefix(id, "github.com/google/uuid.New"), strings.HasPrefix(id, "github.com/google/uuid.Must"), id == "lukechampine.com/frand.New":
 				bad = append(bad, via+" calls "+id)
 			case strings.HasPrefix(id, "crypto/rand.") || id == "io.ReadFull":
 				if !strings.HasSuffix(via, "airgapped.encrypt") && id != "io.ReadFull" {
